@@ -294,7 +294,8 @@ submit_aes_docsis128_dec_crc32_avx512(MB_MGR_DOCSIS_AES_OOO *state, IMB_JOB *job
 {
         (void) state;
 
-        if (job->msg_len_to_hash_in_bytes == 0) {
+        /* as in the other architectures: no CRC32 below the minimum Ethernet PDU size */
+        if (job->msg_len_to_hash_in_bytes < IMB_DOCSIS_CRC32_MIN_ETH_PDU_SIZE) {
                 if (job->msg_len_to_cipher_in_bytes == 0) {
                         /* NO cipher, NO CRC32 */
                         job->status |= IMB_STATUS_COMPLETED_CIPHER;
@@ -316,7 +317,8 @@ submit_aes_docsis256_dec_crc32_avx512(MB_MGR_DOCSIS_AES_OOO *state, IMB_JOB *job
 {
         (void) state;
 
-        if (job->msg_len_to_hash_in_bytes == 0) {
+        /* as in the other architectures: no CRC32 below the minimum Ethernet PDU size */
+        if (job->msg_len_to_hash_in_bytes < IMB_DOCSIS_CRC32_MIN_ETH_PDU_SIZE) {
                 if (job->msg_len_to_cipher_in_bytes == 0) {
                         /* NO cipher, NO CRC32 */
                         job->status |= IMB_STATUS_COMPLETED_CIPHER;
